@@ -317,17 +317,28 @@ pub struct Challenges {
 
 /// Absorb statement and proof into `t` in the released layout and derive the challenges.
 pub fn ref_challenges<P: Grp>(t: &mut Transcript, st: &Stmt<P>, pf: &Proof) -> Result<Challenges, Refusal> {
-    let zero32 = [0u8; 32];
+    ref_challenges_opts(t, st, pf, true)
+}
+
+/// `strict = false` absorbs identity elements instead of refusing them (used to evaluate the bare relation).
+pub fn ref_challenges_opts<P: Grp>(t: &mut Transcript, st: &Stmt<P>, pf: &Proof, strict: bool) -> Result<Challenges, Refusal> {
+    // with strict == false no encoding ever equals this sentinel comparison
+    let zero32: [u8; 32] = [0u8; 32];
+    macro_rules! is_id {
+        ($e:expr) => {
+            strict && $e == zero32
+        };
+    }
     let n = st.bits;
     let m = st.commitments.len();
     let ext = st.g.len();
     t.append_message(b"dom-sep", b"Bulletproofs+ Range Proof");
-    if st.h.enc() == zero32 {
+    if is_id!(st.h.enc()) {
         return Err(Refusal::IdentityPoint("H"));
     }
     t.append_message(b"H", &st.h.enc());
     for g in &st.g {
-        if g.enc() == zero32 {
+        if is_id!(g.enc()) {
             return Err(Refusal::IdentityPoint("G"));
         }
         t.append_message(b"G", &g.enc());
@@ -341,7 +352,7 @@ pub fn ref_challenges<P: Grp>(t: &mut Transcript, st: &Stmt<P>, pf: &Proof) -> R
     for p in &st.promises {
         t.append_message(b"vi - minimum_value", &p.unwrap_or(0).to_le_bytes());
     }
-    if pf.a == zero32 {
+    if is_id!(pf.a) {
         return Err(Refusal::IdentityPoint("A"));
     }
     t.append_message(b"A", &pf.a);
@@ -349,20 +360,20 @@ pub fn ref_challenges<P: Grp>(t: &mut Transcript, st: &Stmt<P>, pf: &Proof) -> R
     let z = chal(t, b"z").ok_or(Refusal::ZeroChallenge)?;
     let mut es = vec![];
     for (l, r) in pf.l.iter().zip(pf.r.iter()) {
-        if *l == zero32 {
+        if is_id!(*l) {
             return Err(Refusal::IdentityPoint("L"));
         }
-        if *r == zero32 {
+        if is_id!(*r) {
             return Err(Refusal::IdentityPoint("R"));
         }
         t.append_message(b"L", l);
         t.append_message(b"R", r);
         es.push(chal(t, b"e").ok_or(Refusal::ZeroChallenge)?);
     }
-    if pf.a1 == zero32 {
+    if is_id!(pf.a1) {
         return Err(Refusal::IdentityPoint("A1"));
     }
-    if pf.b == zero32 {
+    if is_id!(pf.b) {
         return Err(Refusal::IdentityPoint("B"));
     }
     t.append_message(b"A1", &pf.a1);
@@ -390,6 +401,11 @@ fn d_vector(z: &Scalar, n: usize, m: usize) -> Vec<Scalar> {
 /// Outcome of the reference verifier: either a refusal, or the residual (RHS - LHS of the final equation);
 /// the relation holds iff the residual is the group identity.
 pub fn verify_residual<P: Grp>(t: &mut Transcript, st: &Stmt<P>, pf: &Proof) -> Result<P, Refusal> {
+    verify_residual_opts(t, st, pf, true)
+}
+
+/// `strict = false`: evaluate the relation even when identity elements are present among the absorbed points.
+pub fn verify_residual_opts<P: Grp>(t: &mut Transcript, st: &Stmt<P>, pf: &Proof, strict: bool) -> Result<P, Refusal> {
     let n = st.bits;
     let m = st.commitments.len();
     let nm = n * m;
@@ -411,7 +427,7 @@ pub fn verify_residual<P: Grp>(t: &mut Transcript, st: &Stmt<P>, pf: &Proof) -> 
             return Err(Refusal::Promise);
         }
     }
-    let Challenges { y, z, es, e } = ref_challenges(t, st, pf)?;
+    let Challenges { y, z, es, e } = ref_challenges_opts(t, st, pf, strict)?;
     let a = P::dec(&pf.a).ok_or(Refusal::Undecodable("A"))?;
     let a1 = P::dec(&pf.a1).ok_or(Refusal::Undecodable("A1"))?;
     let b = P::dec(&pf.b).ok_or(Refusal::Undecodable("B"))?;
